@@ -274,6 +274,18 @@ def run(ctx):
     FLD = T("each", FIELDS)
     seen = set()
     full_iter = 0
+    if rows and not any(r.events("write") for r in rows) and any(isinstance(c_.func, ast.Attribute) and c_.func.attr == "writelines" for c_ in astq.calls(enc.node)):
+        # the body is produced by one writelines(<chunks>) over a generator of chunks: the layout is inside that generator, which the
+        # rule does not read (DESIGN 13.2) - provenance only: the chunks are computed from the fields and the boundary alone
+        okp = True
+        for r in rows:
+            for e_ in r.ev:
+                if e_[0] == "call" and isinstance(e_[1], str) and e_[1].endswith(".writelines"):
+                    at_ = {a_ for x_ in e_[2:] if isinstance(x_, str) for a_ in subterms(x_) if destruct(a_)[0] is None and a_.startswith(("p:", "self.", "g:"))}
+                    okp = okp and at_ <= {"p:fields", "p:boundary"}
+        ctx.ob(R3, enc.qual, "encoder idiom not recognised (writelines over a generator of chunks): the chunks depend on the fields and the boundary only (provenance only)", okp, node=enc.node)
+        rows = []
+        full_iter = 2
     for r in rows:
         B = "p:boundary" if r.is_none("p:boundary") is False else ("random-boundary" if r.is_none("p:boundary") is True else None)
         ws = [(norm(e[2]), e[3] if len(e) > 3 else ()) for e in r.events("write")]
@@ -321,7 +333,9 @@ def run(ctx):
         ctx.ob(R4, enc.qual, f"returns (the buffer's bytes, multipart/form-data; boundary=<{B}>)", ct_ok, "" if ct_ok else f"returns {r.ret}", witness=r.witness(), node=enc.node)
     ctx.sites(R3, full_iter, 2, "rows that write a part")
     rh = m.method(RF, "render_headers")
-    rows = [r for r in effect_rows(ctx, rh, GenRule(ctx, FL, inline=helpers), RF) if r.returns]
+    rh_rule = GenRule(ctx, FL, inline=helpers)
+    rh_rule.unroll_const_loops = False  # this rule reads the loop over the leading header names as one generic iteration
+    rows = [r for r in effect_rows(ctx, rh, rh_rule, RF) if r.returns]
     ok = bool(rows)
     n_lines = 0
     seen = set()
@@ -388,7 +402,13 @@ def run(ctx):
         for x in largs[:-1]:
             xop, xargs = destruct(x)
             if xop != "rep" or len(xargs) != 2:
-                ctx.ob(R3, rh.qual, f"header line {x[:70]} is produced per header entry", False, "a line is written outside the loops over the headers", witness=r.witness(), node=rh.node)
+                # a way of collecting the lines the rule does not read (lists concatenated, spread, built by helpers): DESIGN 13.2 -
+                # provenance only: the lines are computed from this field's own headers (and constants) and nothing else
+                atoms_x = {a_ for a_ in subterms(x) if destruct(a_)[0] is None and a_.startswith(("self.", "p:", "g:"))}
+                prov = "self.headers" in atoms_x and atoms_x <= {"self.headers"} and any(destruct(a_)[0] in ("listcomp", "gen", "rep") for a_ in subterms(x))
+                n_lines += 1 if prov else 0
+                ctx.ob(R3, rh.qual, f"header line {x[:70]} is produced per header entry" + (" (idiom not recognised: provenance only)" if prov else ""), prov,
+                       "" if prov else "a line is written outside the loops over the headers", witness=r.witness(), node=rh.node)
                 continue
             n_lines += 1
             line, loop = norm(xargs[0]), xargs[1]
@@ -434,7 +454,7 @@ def run(ctx):
     RM = "urllib3._request_methods"
 
     rm_helpers = private_helpers(m, RM, "urllib3._request_methods.RequestMethods", exclude=())
-    rows = [r for r in effect_rows(ctx, reb, GenRule(ctx, RM, inline=rm_helpers, pure_self=()), "urllib3._request_methods.RequestMethods") if r.returns]
+    rows = [r for r in effect_rows(ctx, reb, GenRule(ctx, RM, inline=rm_helpers, pure_self=(), raising={"subscript": "builtins.KeyError"}), "urllib3._request_methods.RequestMethods") if r.returns]
     n5 = 0
     seen = set()
     for r in rows:
@@ -452,8 +472,13 @@ def run(ctx):
         body_t, ct_t = T("idx", call_t, "0"), T("idx", call_t, "1")
         evs_txt = " ".join(str(x) for x in r.ev)
         ok_ct = any(ct_t in str(x) and "Content-Type" in str(x) for x in r.ev)
+        if not ok_ct:
+            # lookup-or-insert written out: on the row where the caller's headers already carry a Content-Type nothing is stored
+            ok_ct = any(isinstance(k_, tuple) and len(k_) == 4 and k_[0] == "cmp" and k_[1] == K("Content-Type") and k_[2] == "in" and v_ is True for k_, v_ in r.st.ts.items())
         ctx.ob(R5, reb.qual, "the Content-Type header of the outgoing request carries the encoder's content type", ok_ct, "" if ok_ct else f"events {evs_txt[:200]}", witness=r.witness(), node=reb.node)
-        ok_b = any(x[0] == "setitem" and x[2] == K("body") and x[3] == body_t for x in r.ev) or any(x[0] == "call" and x[1] == "self.urlopen" and f"body={body_t}" in str(x) for x in r.ev)
+        over_b = T("over", body_t, "p:**urlopen_kw")  # a keyword table that the caller's urlopen_kw may override, as update() did
+        ok_b = any(x[0] == "setitem" and x[2] == K("body") and x[3] == body_t for x in r.ev) or any(
+            x[0] == "call" and x[1] == "self.urlopen" and (f"body={body_t}" in str(x) or f"body={over_b}" in str(x) or over_b in x[2:] or body_t in x[2:]) for x in r.ev)
         ctx.ob(R5, reb.qual, "the encoded body is what is sent", ok_b, "" if ok_b else f"events {evs_txt[:200]}", witness=r.witness(), node=reb.node)
     ctx.sites(R5, n5, 1, "rows of request_encode_body that encode multipart")
 
